@@ -44,6 +44,13 @@ for _f in sorted(glob.glob(os.path.join(os.path.dirname(os.path.abspath(__file__
     CHECKS.update(getattr(_m, "CHECKS", {}))
 
 
+try:
+    import fam_poolslin as _pl
+    CHECKS["C01"] = dict(CHECKS["C01"], runner=_pl.runner)
+except Exception as _e:
+    print("[check] warning: concurrent phase of C01 unavailable: %s" % _e, file=sys.stderr)
+
+
 def run(prop, tier, seed, replay):
     if prop not in CHECKS:
         print("unknown property", prop, file=sys.stderr)
